@@ -187,6 +187,13 @@ def judgeViolations (others : List Str) (lastId : Option Int) (b : G) (i : Str) 
    ("stale-id-not-refused", jcStale lastId others b i r c rep a), ("removal", jcRemoval i c a),
    ("other-instance-touched", jcOthers others b i a)].filterMap fun (n, ok) => if ok then none else some n
 
+/-- removals by the server itself (time-out sweep, clean-up of unknown clients): with the harness's own record of
+    the latest accepted count per exact instance identity in `a.states` (the removed instances taken out of it), the
+    running total is again the sum: exactly the removed instances' contributions are gone -/
+def jcRemovals (b a : G) : List String :=
+  (if a.count = wrap32 (sumStates a.states) then [] else ["total"]) ++
+  (if b.count = sumStates b.states → a.count = sumStates a.states then [] else ["exact"])
+
 /-- a limit change (or a re-sync) leaves the accounting alone -/
 def jcResize (b a : G) : List String :=
   if a.count = b.count ∧ (∀ j ∈ keys a.states ++ keys b.states, oldCount a j = oldCount b j) then []
